@@ -3,10 +3,12 @@ package checks
 import (
 	"bytes"
 	"context"
+	"encoding/asn1"
 	"fmt"
 	"runtime"
 	"testing"
 	"time"
+	"verif/core/asnmut"
 
 	"github.com/IBM/TSS/mpc/bls"
 	"github.com/IBM/TSS/mpc/ps"
@@ -88,6 +90,32 @@ func c11Factories(backend string, all []uint16, t int, tape *backends.Tape) (fun
 				}
 			}
 	}
+}
+
+// structurallyBadShare: stored share data that still parses but no longer fits the session (k selects what is altered).
+func structurallyBadShare(backend string, good []byte, k int) []byte {
+	type stored struct {
+		Sk          []byte
+		PublicKeys  [][]byte
+		ThresholdPK []byte
+	}
+	var sd stored
+	if _, err := asn1.Unmarshal(good, &sd); err != nil {
+		return append([]byte(nil), good...) // the scripted backend's data has no structure
+	}
+	if backend == "ps" && k%3 == 0 {
+		var xys ps.XYs
+		if nb, _, err := asnmut.Reencode(sd.Sk, &xys, asnmut.Op{Field: 1 - (k/3)%2, Kind: k / 6, Arg: k}); err == nil {
+			sd.Sk = nb
+		}
+	} else {
+		asnmut.Apply(&sd, asnmut.Op{Field: k % 3, Kind: k / 3, Arg: k})
+	}
+	out, err := asn1.Marshal(sd)
+	if err != nil {
+		return append([]byte(nil), good...)
+	}
+	return out
 }
 
 func runC11(c c11Case) *vh.Outcome {
@@ -194,8 +222,12 @@ func runC11(c c11Case) *vh.Outcome {
 					bad = append([]byte(nil), good...)
 					bad[len(bad)/3] ^= 0x40
 					bad[0] ^= 0x01
-				default:
+				case 4:
 					bad = bytes.Repeat([]byte{0xA5}, 40)
+				default:
+					// well-formed but unusable: the stored structure (secret key, per-party public keys, threshold key) with
+					// an element dropped / duplicated / emptied / truncated, for PS also inside the secret key (x, ys)
+					bad = structurallyBadShare(c.Backend, good, c.Fault.Data-5)
 				}
 				node.Party.SetStoredData(bad)
 			}
@@ -372,7 +404,7 @@ func runC11(c c11Case) *vh.Outcome {
 			}
 			if c.Fault.Kind == "baddata" && id == c.Fault.Caller && call.Err == nil {
 				// signing with unusable share data cannot legitimately succeed, unless the flipped bit kept it loadable
-				if c.Fault.Data != 3 {
+				if c.Fault.Data != 3 && c.Fault.Data < 5 {
 					fail = vh.Failf(fmt.Sprintf("C11/baddata-success/%s/%s", c.Op, c.Backend), "Sign on party %d succeeded with unusable stored share data (kind %d)", id, c.Fault.Data)
 					return
 				}
@@ -503,7 +535,7 @@ func TestC11Enum(t *testing.T) {
 			{3, 2, false, "bls", "keygen"}, {3, 2, true, "bls", "keygen"},
 			{2, 2, false, "ps", "keygen"},
 			{3, 2, false, "rec", "sign"}, {3, 3, true, "rec", "sign"},
-			{3, 2, false, "bls", "sign"},
+			{3, 2, false, "bls", "sign"}, {2, 2, false, "ps", "sign"},
 		}
 	}
 	shard, shards := vh.EnvInt("VERIF_SHARD", 0), vh.EnvInt("VERIF_SHARDS", 1)
@@ -609,7 +641,7 @@ func TestC11Enum(t *testing.T) {
 							return
 						}
 					}
-					for data := 0; data <= 4; data++ {
+					for data := 0; data <= 4+27; data++ {
 						for _, nd := range []bool{false, true} {
 							c := base
 							c.Fault = c11Fault{Kind: "baddata", Caller: 1 + data%cf.n, Data: data}
@@ -666,7 +698,7 @@ func TestC11Rand(t *testing.T) {
 			c.Fault.Point = rapid.SampledFrom([]string{"factory", "init", "setshare", "run"}).Draw(t, "point")
 		case "baddata":
 			c.Fault.Caller = rapid.IntRange(1, c.N).Draw(t, "caller")
-			c.Fault.Data = rapid.IntRange(0, 4).Draw(t, "data")
+			c.Fault.Data = rapid.IntRange(0, 4+27).Draw(t, "data")
 			c.NoDeadline = rapid.Bool().Draw(t, "nodeadline")
 		case "resubmit":
 			c.Fault.Peer = rapid.IntRange(1, c.N).Draw(t, "peer")
